@@ -256,7 +256,7 @@ static void frame_free(struct frame *f) { free(f->raw); f->raw = NULL; }
 /* ---- oracle ---------------------------------------------------------------- */
 
 struct ctx {                   /* what is printed with a violation */
-        const char *phase; int rate, spl, off; vbi_pixfmt fmt; int interlaced, sync, strict; const char *extra;
+        const char *phase; int rate, spl, off; vbi_pixfmt fmt; int interlaced, sync, strict; const char *extra; int video;
 };
 static const char *region(const struct svc *s, int rate, vbi_pixfmt fmt)
 {
@@ -265,13 +265,50 @@ static const char *region(const struct svc *s, int rate, vbi_pixfmt fmt)
                  fmt_is_packed16(fmt) ? "15/16 bit RGB" : "8 bit samples");
         return b;
 }
+/* Cause classes of the two recorded slicer defects, computed from the configuration alone
+ * (sampling rate, the slicer parameters of the service, pixel format, levels, line start):
+ *   T  step truncation: the payload sampling step is floor(256 * rate / bit_rate) / 256 samples;
+ *      over the N = frc_bits + payload bits sampled with it the instant drifts by
+ *      N * frac(256 * rate / bit_rate) / 256 samples.  Class: drift >= 1/4 bit cell.
+ *   S  CRI sub-sample position dropped: the payload phase starts at the integer sample at which
+ *      the CRI matched although the match happens at one of 4 oversampling positions, and the
+ *      clock recovery has 1/8 sample resolution: up to 5/8 sample.  Class: fewer than 2.25 samples
+ *      per bit cell (the error can reach 5/18 = 0.28 cell).  The bound is a budget, not a proof:
+ *      the largest failing value on the thorough grid is 2.123 samples per cell (VPS, 10.6 MHz).
+ *   L  low pass start threshold: rate / max(cri_rate, bit_rate) > 24 and 8 bit samples select
+ *      low_pass_bit_slicer_Y8, whose start threshold 105 is compared with a sum of 16 samples;
+ *      with video levels (16 * blank 5 < 105) every non-blank sample reads 1, and after two CRI
+ *      bit periods of blank the reduced Caption 525 CRI "0011" matches in the first run-in cycle.
+ * A bit cell is a bit for NRZ services and a half bit for biphase ones (VPS, WSS).
+ * Everything outside T, S and L must decode. */
+static const char *cause_class(const struct svc *s, const struct ctx *c)
+{
+        const _vbi_service_par *p = lib_par(s->id);
+        if (!p) return NULL;
+        unsigned clk = p->cri_rate > p->bit_rate ? p->cri_rate : p->bit_rate;
+        int biphase = s->kind == K_VPS || s->kind == K_WSS;
+        double cell = c->rate / (double) p->bit_rate / (biphase ? 2 : 1);          /* samples per bit cell */
+        double x = c->rate * 256.0 / p->bit_rate;
+        double drift = (p->frc_bits + p->payload) * (x - floor(x)) / 256 / cell;     /* in bit cells */
+        double lead = s->ts - c->off / (double) c->rate;
+        if ((unsigned) c->rate / clk > 24 && !fmt_is_packed16(c->fmt) && c->video && s->kind == K_CC && s->scanning == 525 && lead >= 2.0 / p->cri_rate)
+                return "low pass slicer start threshold: more than 24 samples per CRI bit, 8 bit samples, video levels, at least two CRI bit periods of blank before the signal, Caption 525";
+        if (drift >= 0.25) return "step truncation: frac(256*rate/bit_rate)/256 samples x (FRC + payload bits) drifts 1/4 bit cell or more";
+        if (cell < 2.25) return "CRI sub-sample position dropped: fewer than 2.25 samples per bit cell";
+        return NULL;
+}
 static void report(const char *entry, const struct svc *s, const char *symptom, const struct ctx *c, const char *more)
 {
-        char key[200];
-        if (s) snprintf(key, sizeof key, "%s: %s %s %s", entry, kind_name[s->kind], symptom, region(s, c->rate, c->fmt));
+        char key[300]; const char *cc = NULL;
+        if (s && (!strcmp(symptom, "line not decoded") || !strcmp(symptom, "payload bits differ"))) cc = cause_class(s, c);
+        if (cc) {
+                char e[64]; snprintf(e, sizeof e, "%s", entry);
+                char *q = strstr(e, " (second frame)"); if (q) *q = 0;
+                snprintf(key, sizeof key, "%s: line not decoded or payload bits differ [%s]", e, cc);
+        } else if (s) snprintf(key, sizeof key, "%s: %s %s %s", entry, kind_name[s->kind], symptom, region(s, c->rate, c->fmt));
         else snprintf(key, sizeof key, "%s: %s", entry, symptom);
-        V(key, "%s svc=%s rate=%d spl=%d offset=%d fmt=%s interlaced=%d sync=%d strict=%d %s %s", c->phase, s ? s->name : "-", c->rate, c->spl, c->off,
-          fmt_name(c->fmt), c->interlaced, c->sync, c->strict, c->extra ? c->extra : "", more ? more : "");
+        V(key, "%s svc=%s rate=%d spl=%d offset=%d fmt=%s interlaced=%d sync=%d strict=%d %s %s%s%s", c->phase, s ? s->name : "-", c->rate, c->spl, c->off,
+          fmt_name(c->fmt), c->interlaced, c->sync, c->strict, c->extra ? c->extra : "", cc ? symptom : "", cc ? ": " : "", more ? more : "");
         OUTCOME(symptom);
 }
 
@@ -586,7 +623,7 @@ static void grid_one(const struct svc *s, int rate, vbi_pixfmt fmt, int video_le
         int ng = build_geo(s, rate, bppx, g);
         for (int gi = geo_phase % geo_stride; gi < ng; gi += geo_stride) {
                 struct frame f; memset(&f, 0, sizeof f);
-                struct ctx c = { "slicer-grid", rate, g[gi].spl, g[gi].off, fmt, 0, 1, 0, extra };
+                struct ctx c = { "slicer-grid", rate, g[gi].spl, g[gi].off, fmt, 0, 1, 0, extra, video_levels };
                 snprintf(extra, sizeof extra, "levels=%s offset=%s", video_levels ? "video" : "vbi", g[gi].what);
                 CASE("slicer-grid", "svc=%s rate=%d spl=%d off=%d fmt=%s", s->name, rate, g[gi].spl, g[gi].off, fmt_name(fmt));
                 sp_init(&f.gsp, s->scanning, fmt, rate, g[gi].spl, g[gi].off);
@@ -767,7 +804,7 @@ static void layout_case(uint64_t idx, void *arg)
                                         if (!(known & 1)) d.start[0] = 0;
                                         if (!(known & 2)) d.start[1] = 0;
                                         if (!sync && known != 3 && known != 0) continue;
-                                        struct ctx c = { "layout", LRATE[ri].rate, LRATE[ri].spl, LRATE[ri].off, fmt, il, sync, strict, extra };
+                                        struct ctx c = { "layout", LRATE[ri].rate, LRATE[ri].spl, LRATE[ri].off, fmt, il, sync, strict, extra, fv };
                                         snprintf(extra, sizeof extra, "set=%d(%#x) layout=%s lines=%d+%d/%d+%d known=%d pattern=%s levels=%s", set, req, layout_name[layout], st[0], cn[0], st[1], cn[1], known, pat_name[pat], fv ? "video" : "vbi");
                                         CASE("layout", "%s strict=%d sync=%d il=%d fmt=%s rate=%d", extra, strict, sync, il, fmt_name(fmt), LRATE[ri].rate);
                                         unsigned must = 0;
